@@ -21,6 +21,16 @@ CLAIMED = {
              "the C++ side of 'canonical' is C03's business.",
         technique="Lean 4 proof (refinement to a canonical codec) + translated test vectors + correspondence check",
         ref="DESIGN.md section 8, C02"),
+    "C04": dict(
+        text="Lean theorems about the model of PackedEncoder (generate = flattening in ascending field id with a bit cursor): "
+             "leaves tile [0, total) (Tiles, by induction over fuel/fields/array indices), hence no gaps, no overlaps, total = sum of widths; "
+             "every leaf's width is its own type's wire width, its options are exactly the signal block of its declared field name and its byte "
+             "order comes from them; the result is independent of the encoder's history. Tie: per-run differential of generate() over random "
+             "histories on one encoder, with direct tiling/uniqueness/history oracles.",
+        note="Name uniqueness is checked by the harness under the guard NamesSeparable (recorded finding: a_<i> collision); "
+             "Value.type objects are not compared.",
+        technique="Lean 4 proof (invariant by induction over the flattening) + correspondence check over call histories",
+        ref="DESIGN.md section 8, C04"),
     "C16": dict(
         text="Lean theorems: every strict byte prefix of a valid encoding makes pyDecode return an error (C16_truncation, from "
              "dec_prefix_none by induction over the type tree), a returned value accounts for bits that were present "
